@@ -4,7 +4,7 @@ CONSTANTS
   ItemMode = "tiny"
   LayoutMode = 0
   GapMode = 2
-  VFormMode = 1
+  VFormMode = 0
   StripIndentV3 = FALSE
   LeakBlank = FALSE
   NeverQuote = FALSE
